@@ -2,7 +2,7 @@
 
    (hist L..)   L = (parse) | (compile)
                   | (ok <has_expr 0|1> <result_nil 0|1> (binds (x i)..) (aliases a..) (stored V..) V)
-     binds/aliases: the binding map the compiler returned for the line; stored: the values the line
+     binds/aliases: the binding map the compiler returned for the line (the harness's binds-raw); stored: the values the line
      appended to the locals after its parameter; the last V: the line's result.  Values are opaque
      s-expressions (the model is polymorphic in the value type; here it is instantiated with the
      printed form), nil is (t - ()).
@@ -57,6 +57,9 @@ let err_str = function
   | VariableNotFound -> "VariableNotFound"
 
 let dump_session (s : string session) : string =
+  (* the harness dumps the session after one lookup of an unbound name: the REPL has then forgotten
+     the variables beyond the reported locals count *)
+  let s = forget s in
   let vars = List.filter_map (function (x, BVar i) -> Some (name_of x, int_of_nat i) | _ -> None) s.s_bindings in
   let aliases = List.filter_map (function (x, BAlias) -> Some (name_of x) | _ -> None) s.s_bindings in
   let vars = List.sort compare vars and aliases = List.sort compare aliases in
